@@ -21,7 +21,7 @@ RULE = (
     "(screen hash, replacement kind, model, scorer, n_chunks, batch); non-trivial = >=1 masked row and >=1 observed row"
 )
 ASSUMPTIONS = ["observed values exactly 0 or 1 are outside the interaction model's transform (logit gives +-inf) and are not generated for it", "both members of a pair use the same seed and the same global numpy seed so that only masked values differ"]
-REQUIRED = {"training_sets_with_values_above_one": {"quick": 40, "thorough": 500}, "two_batch_histories": {"quick": 100, "thorough": 1200}, "cli_pairs": {"quick": 6, "thorough": 40}, "cli_replacement_nan": {"quick": 1, "thorough": 6}, "pairs_compared": {"quick": 250, "thorough": 3000}, "artefacts_compared": {"quick": 1200, "thorough": 15000}, "training_set_checks": {"quick": 250, "thorough": 3000}, "refusals_checked": {"quick": 2000, "thorough": 25000}}
+REQUIRED = {"refusals_checked_for_side_effects": {"quick": 200, "thorough": 2500}, "training_sets_with_values_above_one": {"quick": 40, "thorough": 500}, "two_batch_histories": {"quick": 100, "thorough": 1200}, "cli_pairs": {"quick": 6, "thorough": 40}, "cli_replacement_nan": {"quick": 1, "thorough": 6}, "pairs_compared": {"quick": 250, "thorough": 3000}, "artefacts_compared": {"quick": 1200, "thorough": 15000}, "training_set_checks": {"quick": 250, "thorough": 3000}, "refusals_checked": {"quick": 2000, "thorough": 25000}}
 N_PAIRS = {"quick": 640, "thorough": 6400}
 
 
@@ -341,6 +341,47 @@ def run_shard(rec, tier, seed, shard, nshards):
                     pass
                 except Exception as e:
                     rec.violation("C04/%s/wrong-exception-on-%s" % (m2, what), "%s.add_observations raised %r instead of ValueError" % (m2, e), w)
+
+            # a refusal leaves no trace: a model that already holds observations (and has exported a sample) is offered a
+            # batch with a negative / NaN value; after the ValueError its training set, its single-effect table and the
+            # predictions of the sample exported before are what they were
+            if pi % 3 == 0:
+                try:
+                    m = fresh()
+                    good = A.subset_observed()
+                    m.add_observations(good)
+                    theta = m.get_model_state()
+                    pred0 = kit.raw_bytes(np.asarray(theta.predict_viability(good)))
+                except Exception as e:
+                    rec.did_not_return("refusal-setup-" + m2, e)
+                    continue
+                n0 = int(m.n_obs())
+                tab0 = dict(getattr(m, "single_effect_lookup", {}) or {})
+                for bad, val in (("negative", -0.25), ("nan", float("nan"))):
+                    o = kw["observations"].copy()
+                    idx = np.flatnonzero(kw["observation_mask"])
+                    if m2 == "SparseDrugComboInteraction" and rng.random() < 0.6:
+                        # put the bad value on a combination row so that single-agent rows of the batch are valid
+                        combo = [i for i in idx if not (np.asarray(A.treatment_ids)[i] == -1).any()]
+                        idx = np.array(combo) if combo else idx
+                    o[int(rng.choice(idx))] = val
+                    # the other values of the refused batch differ from the accepted ones
+                    o2 = np.where(np.isfinite(o) & (o > 0), np.clip(o * 0.5 + 0.2, 0.03, 0.97), o)
+                    Sb = Screen(**dict(kw, observations=o2))
+                    rec.count("refusals_checked_for_side_effects")
+                    try:
+                        m.add_observations(Sb.subset_observed())
+                        continue  # acceptance is reported by the refusal cases above
+                    except ValueError:
+                        pass
+                    except Exception:
+                        continue
+                    same_tab = dict(getattr(m, "single_effect_lookup", {}) or {}) == tab0
+                    try:
+                        same_pred = kit.raw_bytes(np.asarray(theta.predict_viability(good))) == pred0
+                    except Exception:
+                        same_pred = False
+                    rec.check(int(m.n_obs()) == n0 and same_tab and same_pred, "C04/%s/refused-batch-left-a-trace" % m2, lambda: "%s refused a batch with a %s value, but afterwards n_obs %d -> %d, single-effect table unchanged: %s, predictions of the sample exported before unchanged: %s" % (m2, bad, n0, int(m.n_obs()), same_tab, same_pred), w)
 
     # every replacement kind goes through the command-line entry points in every run (kind by shard and position)
     cli_pairs(rec, rng, shard, n=6 if tier == "thorough" else 1, seed=seed)
